@@ -153,12 +153,6 @@ func (r *Reconciler) Reconcile(ctx context.Context, req reconcile.Request) (reco
 		return reconcile.Result{}, errors.Wrap(err, errListRevs)
 	}
 
-	var latestRev, existingRev int64
-
-	if lr := v1.LatestRevision(comp, rl.Items); lr != nil {
-		latestRev = lr.Spec.Revision
-	}
-
 	for i := range rl.Items {
 		rev := &rl.Items[i]
 
@@ -180,6 +174,20 @@ func (r *Reconciler) Reconcile(ctx context.Context, req reconcile.Request) (reco
 				return reconcile.Result{}, errors.Wrap(err, errOwnRev)
 			}
 		}
+	}
+
+	var latestRev, existingRev int64
+
+	// The latest revision is determined only once every revision is controlled
+	// by this Composition again. LatestRevision ignores revisions that are not
+	// controlled, so doing this earlier would restart numbering below existing
+	// revisions whose owner references were stripped.
+	if lr := v1.LatestRevision(comp, rl.Items); lr != nil {
+		latestRev = lr.Spec.Revision
+	}
+
+	for i := range rl.Items {
+		rev := &rl.Items[i]
 
 		// This revision does not match our current Composition.
 		if rev.GetLabels()[v1.LabelCompositionHash] != currentHash[:63] {
